@@ -102,6 +102,29 @@ def fbigEq (a b : FRepr) : Bool :=
 /-- `Sign * Ordering` -/
 def mulOrd (neg : Bool) (o : Ordering) : Ordering := if neg then o.swap else o
 
+/-- case 4 of `repr_cmp_same_base`: exponent against precision (only when both precisions are limited) -/
+def cmpCase4 (ln : Bool) (e1 e2 : Int) (prec : Option (Nat × Nat)) : Option Ordering :=
+  match prec with
+  | some (lp, rp) =>
+    if lp ≠ 0 ∧ rp ≠ 0 then
+      if e1 > e2 + rp then some (mulOrd ln .gt)
+      else if e2 > e1 + lp then some (mulOrd ln .lt)
+      else none
+    else none
+  | none => none
+
+/-- case 6 of `repr_cmp_same_base`: exact comparison after aligning the exponents (`shl_digits`) -/
+def cmpCase6 (B : Nat) (s1 e1 s2 e2 : Int) : Ordering :=
+  if e1 = e2 then compare s1 s2
+  else if e1 > e2 then compare (s1 * (B : Int) ^ (e1 - e2).toNat) s2
+  else compare s1 (s2 * (B : Int) ^ (e2 - e1).toNat)
+
+/-- cases 5 and 6: exponent against (estimated) digits, then the exact comparison -/
+def cmpCase56 (B : Nat) (digitsUb : Int → Nat) (ln : Bool) (s1 e1 s2 e2 : Int) : Ordering :=
+  if e1 > e2 + digitsUb s2 then mulOrd ln .gt
+  else if e2 > e1 + digitsUb s1 then mulOrd ln .lt
+  else cmpCase6 B s1 e1 s2 e2
+
 /-- `repr_cmp_same_base::<B, false>(lhs, rhs, precision)`.  `digitsUb` is the `digits_ub` estimate
     (an `f32` computation in the code): a parameter, required by the theorems to be an upper bound
     of the true digit count. -/
@@ -123,27 +146,10 @@ def reprCmpSameBase (B : Nat) (digitsUb : Int → Nat) (lhs rhs : FRepr) (prec :
   else if lhs.isZero then .lt
   else if rhs.isZero then .gt
   else
-  -- case 4: exponent against precision
-  let c4 : Option Ordering :=
-    match prec with
-    | some (lp, rp) =>
-      if lp ≠ 0 ∧ rp ≠ 0 then
-        if lhs.exp > rhs.exp + rp then some (mulOrd ln .gt)
-        else if rhs.exp > lhs.exp + lp then some (mulOrd ln .lt)
-        else none
-      else none
-    | none => none
-  match c4 with
+  -- cases 4, 5, 6
+  match cmpCase4 ln lhs.exp rhs.exp prec with
   | some o => o
-  | none =>
-    -- case 5: exponent against (estimated) digits
-    if lhs.exp > rhs.exp + digitsUb rhs.signif then mulOrd ln .gt
-    else if rhs.exp > lhs.exp + digitsUb lhs.signif then mulOrd ln .lt
-    else
-      -- case 6: exact comparison after aligning the exponents (`shl_digits`)
-      if lhs.exp = rhs.exp then compare lhs.signif rhs.signif
-      else if lhs.exp > rhs.exp then compare (lhs.signif * (B : Int) ^ (lhs.exp - rhs.exp).toNat) rhs.signif
-      else compare lhs.signif (rhs.signif * (B : Int) ^ (rhs.exp - lhs.exp).toNat)
+  | none => cmpCase56 B digitsUb ln lhs.signif lhs.exp rhs.signif rhs.exp
 
 /-- spec: the order of the values `signif * B^exp`, infinities at the ends -/
 def specFCmp (B : Nat) (a b : FRepr) : Ordering :=
